@@ -957,9 +957,10 @@ fn run_history(env: &mut Env, h: &History, collect_model: &mut Vec<Fail>) -> Res
             // whether it reindexed is the implementation's decision: observed through the tables
         }
         if h.file && i % 7 == 6 {
-            // drop every cache: re-open the database file
+            // drop every cache: re-open the database file (`Backend::new` re-reads the maximum entry id from id2entry)
             drop(be);
             be = open(&meta).map_err(|e| infra(i, e))?;
+            replies.push(env.drv.ask("reopen"));
         }
         // ---- observe
         let real_d = real_dump(&be, &uni).map_err(|e| infra(i, e))?;
@@ -1835,7 +1836,7 @@ fn main() {
             }
         }
         // random histories
-        let n = args.cases(40, 600);
+        let n = args.cases(30, 600);
         let mut oracle_found = false;
         let mut model_reported = 0;
         for i in 0..n {
